@@ -6,9 +6,30 @@ Layers
           independent reader `vlib/ref/c07_document.py` (written from the manual): per phase the sequence of
           instructions with first line number, source lines, file, inclusion chain and description; for
           erroneous documents the error kind and its location.
-  cli_*   the `file, line N / source` chain that `exactly FILE` prints for syntax errors, inclusion errors and
-          failing instructions; and the metamorphic relation "permuting phase blocks changes nothing".
+          Independent of any reading (so also for documents without a single documented reading): every element
+          (instruction, comment, blank, act source) carries the text of the lines of the file it says it comes from.
+  cli_*   the `file, line N / source` chain that `exactly FILE` prints for syntax errors, inclusion errors (missing
+          file, directory, direct / indirect cycle, cycle through a symbolic link or an absolute path) and failing
+          instructions, one `file, line` block per including file; the metamorphic relation "permuting phase blocks
+          changes nothing"; and for passing documents the marker trace = the reading of the reference reader (each
+          phase runs exactly its instructions, merged in file order, inclusions spliced in place).
+
+Known finding KF-C07-1 (defect model = `ref.read_document(..., swallow=True)`): an instruction whose mandatory last
+argument is missing on its line - the name alone for file / dir / cd / exists / copy / run, or `... =` for def / file /
+env / timeout / stdin - takes the next non-blank line as that argument also when this line is a header line
+(`[NAME]`, `[NAME`, ... as a single token; for `copy` also two tokens, for `run` any number: `[setup] x`; valid,
+unknown or malformed header alike; never a line with a reserved word such as a lone `[` or `]`), and so does a pending list
+continuation (`def list L = a \\`) directly followed by a header line.  The header is swallowed: no phase switch,
+no unknown / malformed header error, the lines after it are read in the old phase.  A mismatch is reported as
+KF-C07-1 only if the observation equals that reading of this very document: API - same elements (count, file, line,
+source lines incl. the swallowed header, chain) or the error that reading gives (kind, chain, file, line, text;
+where that reading reaches a place with no single documented reading: an error located at or after that place, or
+a document whose phases start with the elements read up to there); CLI - `PASS` for the instructions that can take
+any string (dir file def env), HARD_ERROR / VALIDATION_ERROR / FAIL located at the swallowing instruction (all of its
+lines, chain printed) for cd / run copy timeout / exists, or the SYNTAX_ERROR / FILE_ACCESS_ERROR (identifier, exit
+code, printed location) that the reading with the swallowed header gives.  Anything else stays a violation.
 """
+import json
 import os
 import posixpath
 import re
@@ -32,7 +53,11 @@ RULE = ('documents are generated as sequences over the alphabet of line kinds of
         '`./`, `../`, absolute paths, symbolic links, odd file names), diamonds, cycles, self inclusion, '
         'missing files and directories; the root file in the cwd or a sub-directory, given by relative or absolute '
         'path; a small alphabet is enumerated exhaustively up to a length bound; CLI cases '
-        'are executable documents (sh source actor, marker files) with one planted failing element or a random '
+        'are executable documents (sh source actor, marker files) with one planted failing element (failing / '
+        'invalid instruction - one-line, multi-line, described -, unknown / malformed header, unknown instruction, '
+        'unterminated here-document, incomplete instruction before a header, inclusion of a missing file, of a '
+        'directory, cyclic inclusion - direct, indirect, through a symbolic link, by absolute path - at any '
+        'inclusion depth) or a random '
         'order preserving permutation of the phase blocks of every file.  A case is non-trivial when the reference '
         'reader sees >= 2 phases with contents and at least one of: repeated phase, inclusion, multi-line element, '
         'description, escaped act line (API layer), every CLI case is non-trivial; distinct = distinct file set')
@@ -41,10 +66,12 @@ ASSUMPTIONS = [
     '(here-documents, parentheses, braces with one file per line, trailing operator / list continuation, `-stdin` '
     'on the line after a program, `$` takes the line) - not by a general '
     'instruction parser; the generators only emit instructions of that sub-language',
-    'the manual does not say which of several errors of a document is reported: the reported error must be the first '
-    'one in reading order (inclusions expanded in place) or one of the later errors that the reference reader finds '
-    'when it goes on after an error (rest of the erroneous phase block skipped); on the unchanged tree a later one is '
-    'reported only where KF-C07-1 hides the first one (label reported-error:a-later-one...)',
+    'the manual does not say which of several errors of a document is reported: a reader that reads the file once, '
+    'from the top, inclusions expanded in place, reports the first one in reading order, and that one is demanded '
+    '(ACCEPT_LATER_ERRORS = False; the reference reader still collects the later errors - rest of the erroneous '
+    'phase block skipped - and the switch would accept any of them); on the unchanged tree a later error is reported '
+    'only where KF-C07-1 hides the first one, and there it is the first error of the reading with the swallowed '
+    'header, i.e. part of the known finding',
     'the source of an instruction with a description on the same line may be reported with or without the '
     'description part of the line; an error in a described instruction may be located at any line from the '
     'description to the first line of the instruction; description texts are compared modulo white space',
@@ -62,10 +89,16 @@ ASSUMPTIONS = [
     'the act phase is compared line by line (file, number, un-escaped text), not by element: how the lines are '
     'grouped into elements is not observable through the manual',
     'exactly one failing element is planted in a CLI document, so that "which failure is reported" is unambiguous',
+    'where a document has no single documented reading from some place on, an error reported for it must be located '
+    'at or after that place (reading order: the line numbers of the including directives, then the line in the file)',
+    'the marker trace of a passing generated document is derived from the reference reading: phases in execution '
+    'order (setup act before-assert assert cleanup), within a phase the `$ echo TAG` / `$ cat HERE-DOC-FILE` '
+    'instructions in reading order; the act phase is a sh script that echoes tags until an `exit N` line',
     'instruction table per phase transcribed from `exactly help instructions` (sub-check manual_agrees)',
 ]
 
 KF_SWALLOW = 'KF-C07-1'
+ACCEPT_LATER_ERRORS = False
 API_ALARM_S = 30.0  # a parse takes ~1 ms; the alarm only keeps the harness alive (-> inconclusive)
 ROOT = 't.case'
 
@@ -149,15 +182,19 @@ def observe_api(home, root=ROOT, root_abs=False):
             return {'crash': '%s: %s' % (type(ex).__name__, str(ex)[:300]),
                     'traceback': traceback.format_exc(limit=4)[-1200:]}
         phases = {}
+        everything = []
         for name, contents in zip(ref.PHASES, tc):
             els = []
             for e in contents.elements:
-                if e.element_type is not ElementType.INSTRUCTION:
-                    continue  # the property: comments and blank lines between elements are ignored
                 sli = e.source_location_info
                 loc = _location_path(home, str(sli.abs_path_of_dir_containing_first_file_path),
                                      list(sli.file_inclusion_chain) + [sli.source_location_path.location])
                 src = e.source
+                everything.append({'phase': name, 'type': e.element_type.name, 'file': loc[-1][0],
+                                   'line': src.first_line_number, 'lines': _unhome(home, src.lines),
+                                   'chain': [[c[0], c[1]] for c in loc[:-1]]})
+                if e.element_type is not ElementType.INSTRUCTION:
+                    continue  # the property: comments and blank lines between elements are ignored
                 els.append({'file': loc[-1][0], 'line': src.first_line_number, 'lines': _unhome(home, src.lines),
                             'desc': e.instruction_info.description,
                             'chain': [list(c) for c in loc[:-1]]})
@@ -168,7 +205,7 @@ def observe_api(home, root=ROOT, root_abs=False):
             if e.element_type is ElementType.INSTRUCTION:
                 ls = e.instruction_info.instruction.source_code()
                 act_code.append([ls.first_line_number, _unhome(home, ls.lines)])
-        return {'phases': phases, 'act_code': act_code}
+        return {'phases': phases, 'act_code': act_code, 'everything': everything}
     finally:
         os.chdir(saved)
 
@@ -268,6 +305,43 @@ def compare_error(exp_err, obs_err, files, links=None):
     return None
 
 
+def check_sources_are_file_text(obs, files, links=None):
+    """Needs no reading of the document: whatever elements the parser makes (instructions, comments, blank lines,
+    act source), each one says where it comes from - the text it carries must be the text of those lines of that
+    file (the first line of an instruction without indentation / description; act lines un-escaped), and the
+    elements that one file contributes to one phase at one place of inclusion follow each other without overlap.
+    -> None or (bucket, detail)"""
+    last_end = {}
+    for e in obs['everything']:
+        real = (links or {}).get(e['file'], e['file'])
+        text = files.get(real)
+        if text is None:
+            return ('element-file-does-not-exist', {'element': e})
+        actual = ref.split_lines(text)
+        at = e['line'] - 1
+        n = len(e['lines'])
+        if n and e['lines'][-1] == '' and at + n == len(actual) + 1:
+            n -= 1  # (the empty "line" after the final newline of a file)
+        if at < 0 or n < 1 or at + n > len(actual):
+            return ('element-lines-outside-file', {'element': e, 'lines_in_file': len(actual)})
+        for k in range(n):
+            a, t = actual[at + k], e['lines'][k]
+            if e['phase'] == 'act':
+                ok = ref.un_escape(a) == t
+            elif k == 0 and e['type'] == 'INSTRUCTION':
+                cut = a[:len(a) - len(t)]
+                ok = a.endswith(t) and (cut.strip(' \t') == '' or cut.lstrip(' \t').startswith('`'))
+            else:
+                ok = a == t
+            if not ok:
+                return ('element-source-is-not-file-text', {'element': e, 'line_index': k, 'text_in_file': a})
+        place = (e['phase'], e['file'], json.dumps(e['chain']))
+        if at < last_end.get(place, 0):
+            return ('element-overlaps-previous-one', {'element': e, 'previous_element_ends_at_line': last_end[place]})
+        last_end[place] = at + n
+    return None
+
+
 def _is_nontrivial(r):
     used = [p for p in ref.PHASES if r.phases[p]]
     feats = {'repeated-phase', 'inclusion', 'multi-line-element', 'description-on-same-line',
@@ -329,7 +403,7 @@ def check_api(case) -> Verdict:
                 n = {p: len(v) for p, v in obs['phases'].items()}
                 return ('no-error/%s' % rr.error['what'], {'expected': rr.error, 'observed_element_counts': n})
             bad_ = compare_error(rr.error, obs['error'], files, links)
-            if bad_ is not None:
+            if bad_ is not None and ACCEPT_LATER_ERRORS:
                 # the manual does not say which of several errors is reported
                 for later in rr.later_errors:
                     if compare_error(later, obs['error'], files, links) is None:
@@ -346,6 +420,8 @@ def check_api(case) -> Verdict:
 
     order = []
     bad = verdict_for(r)
+    if bad is None and 'everything' in obs:
+        bad = check_sources_are_file_text(obs, files, links)
     if bad is not None and 'list-continuation-then-header' in r.labels:
         # second documented reading: the continued list just has no more elements
         if verdict_for(ref.read_document(files, root, list_reading='complete', symlinks=links)) is None:
@@ -410,6 +486,13 @@ _IDENT_EXIT = {'PASS': 0, 'FAIL': 32, 'HARD_ERROR': 128, 'VALIDATION_ERROR': 65,
                'FILE_ACCESS_ERROR': 65}
 
 
+# defect model KF-C07-1 at the CLI: what becomes of an instruction that is given a header line (`[NAME]`) as its
+# argument - a file / directory / string of that name is made, or a file / directory / integer of that name is missing
+_SWALLOW_OUTCOME = {'dir': 'PASS', 'file': 'PASS', 'def': 'PASS', 'env': 'PASS', 'cd': 'HARD_ERROR',
+                    'run': 'VALIDATION_ERROR', 'copy': 'VALIDATION_ERROR', 'timeout': 'VALIDATION_ERROR',
+                    'exists': 'FAIL'}
+
+
 def parse_location_block(err):
     """-> (section or None, [(path, line number, [text lines up to the next location line])])"""
     lines = err.split('\n')
@@ -463,7 +546,7 @@ def _find_planted(r, plant):
     return None, None
 
 
-def _check_printed_location(r_out, r_err, exp, files):
+def _check_printed_location(r_out, r_err, exp, files, links=None):
     """exp: dict(chain, file, lo, hi, lines (or None), desc, phase) -> None or (bucket, detail)"""
     section, locs = parse_location_block(r_err)
     d = {'expected': exp, 'printed_locations': [(a, b) for a, b, _ in locs], 'stderr': r_err[:1500]}
@@ -479,7 +562,7 @@ def _check_printed_location(r_out, r_err, exp, files):
     for (cf, cl, ctext), (_, _, reg) in zip(exp['chain'], locs[:-1]):
         if not _in_order(reg, [ctext]):
             return ('printed-directive-source', d)
-    actual = ref.split_lines(files[f])
+    actual = ref.split_lines(files[(links or {}).get(f, f)])
     wanted = exp['lines'] if exp['lines'] is not None else [actual[n - 1]]
     if exp['lines'] is None:
         # an erroneous line: shown as it is, or without a description that precedes the instruction on the line
@@ -507,17 +590,21 @@ def check_cli_location(case) -> Verdict:
     files = case['files']
     plant = case['plant']
     root = case.get('root', ROOT)
-    r = ref.read_document(files, root)
+    links = case.get('symlinks')
+    r = ref.read_document(files, root, symlinks=links)
     labels = ['plant:' + plant['kind'], 'plant-ident:' + plant['ident'], 'plant-phase:' + plant['phase'],
               'plant-in-included' if plant['file'] != root else 'plant-in-root',
               _root_label(case),
               'incl-depth:%d' % r.max_depth] + (['plant-described'] if plant['desc'] else [])
-    labels += sorted(r.labels & {'inclusion-absolute-path', 'inclusion-other-dir', 'inclusion-through-symlink'})
+    labels += sorted(r.labels & {'inclusion-absolute-path', 'inclusion-other-dir', 'inclusion-through-symlink',
+                                 'included-twice'})
     if r.error is not None:
         if {'syntax': 'SYNTAX_ERROR', 'access': 'FILE_ACCESS_ERROR'}[r.error['kind']] != plant['ident']:
             raise AssertionError('planted %r but the reference reads %r' % (plant, r.error))
         exp = {'chain': r.error['chain'], 'file': r.error['file'], 'lo': r.error['lo'], 'hi': r.error['hi'],
                'lines': None, 'desc': None, 'phase': None, 'what': r.error['what']}
+        labels.append('chain-length:%d' % len(r.error['chain']))
+        labels.append('err:' + r.error['what'])
     else:
         ph, el = _find_planted(r, plant)
         if el is None:
@@ -546,21 +633,32 @@ def check_cli_location(case) -> Verdict:
         if plant['kind'] == 'incomplete':
             # defect model KF-C07-1 (the incomplete instruction swallows the header line): the reading with the
             # swallowed header decides what is reported - for this very document
-            r2 = ref.read_document(files, root, swallow=True)
+            r2 = ref.read_document(files, root, swallow=True, symlinks=links)
             if r2.swallowed and not r2.ambiguous:
                 if r2.error is None:
-                    # that reading is a valid document of instructions that succeed by construction (the lines
-                    # after the swallowed header are instructions of the old phase too)
-                    ok2 = ident == 'PASS' and res.exit_code == 0 and res.err == ''
-                    dd['defect_model_predicts'] = 'PASS'
+                    # that reading is a valid document whose instructions succeed by construction (the lines after
+                    # the swallowed header are instructions of the old phase too) - except, possibly, the
+                    # instruction that got the header line as its argument
+                    ph2, el2 = _find_planted(r2, plant)
+                    pred = _SWALLOW_OUTCOME.get(el2['lines'][0].split()[0]) if el2 is not None else None
+                    dd['defect_model_predicts'] = pred
+                    if pred == 'PASS':
+                        ok2 = ident == 'PASS' and res.exit_code == 0 and res.err == ''
+                    elif pred is not None:
+                        e2 = {'chain': el2['chain'], 'file': el2['file'], 'lo': el2['line'], 'hi': el2['line'],
+                              'lines': el2['lines'], 'desc': None, 'phase': ph2, 'same_line_desc': False}
+                        ok2 = ident == pred and res.exit_code == _IDENT_EXIT[pred] and \
+                            _check_printed_location(res.out, res.err, e2, files, links) is None
+                    else:
+                        ok2 = False
                 else:
                     ok2 = False
-                    for e in [r2.error] + r2.later_errors:
+                    for e in [r2.error] + (r2.later_errors if ACCEPT_LATER_ERRORS else []):
                         e2 = {'chain': e['chain'], 'file': e['file'], 'lo': e['lo'], 'hi': e['hi'], 'lines': None,
                               'desc': None, 'phase': None}
                         want = {'syntax': 'SYNTAX_ERROR', 'access': 'FILE_ACCESS_ERROR'}[e['kind']]
                         if ident == want and res.exit_code == _IDENT_EXIT[want] and \
-                                _check_printed_location(res.out, res.err, e2, files) is None:
+                                _check_printed_location(res.out, res.err, e2, files, links) is None:
                             ok2 = True
                             break
                     dd['defect_model_predicts'] = r2.error
@@ -578,7 +676,7 @@ def check_cli_location(case) -> Verdict:
         return bad('identifier/%s/%s' % (plant['ident'], ident))
     if res.exit_code != _IDENT_EXIT[ident]:
         return bad('exit-code/%s' % ident)
-    mism = _check_printed_location(res.out, res.err, exp, files)
+    mism = _check_printed_location(res.out, res.err, exp, files, links)
     if mism is not None:
         return bad(mism[0] + '/' + str(exp['what']), mism[1])
     return Verdict(True, nontrivial=True, labels=labels)
@@ -666,6 +764,44 @@ def _run_keep(case_files, dirs, case):
                 'stderr': res.err[:800]}
 
 
+_ACT_ECHO_RE = re.compile(r'echo (t\d+) >> \{MARKERS\}$')
+_ECHO_RE = re.compile(r'^\$ echo (t\d+) >> \{MARKERS\}$')
+_CAT_RE = re.compile(r'^\$ cat (\S+) >> \{MARKERS\}$')
+_FILE_HEREDOC_RE = re.compile(r'^file (\S+) = <<\S+$')
+
+
+def expected_markers(r):
+    """The marker trace of a passing generated (exec mode) document, derived from the reference reading alone:
+    phase by phase in execution order, within a phase in reading order (repeated declarations merged in file
+    order, included files spliced in at their directive).  `$ echo TAG >> {MARKERS}` writes its tag,
+    `$ cat F >> {MARKERS}` the body of the here-document that `file F = <<M` was given; the act phase is a sh
+    script whose lines echo their tags until an `exit N` line."""
+    out = []
+    heredocs = {}
+    for ph in ref.PHASES:
+        if ph == 'act':
+            for x in r.phases['act']:
+                t = x['text'].strip()
+                if re.match(r'^exit \d+$', t):
+                    break
+                m = None if t.startswith('#') else _ACT_ECHO_RE.search(t)
+                if m:
+                    out.append(m.group(1))
+            continue
+        for e in r.phases[ph]:
+            first = e['lines'][0]
+            m = _FILE_HEREDOC_RE.match(first)
+            if m:
+                heredocs[m.group(1)] = e['lines'][1:-1]
+            m = _ECHO_RE.match(first)
+            if m:
+                out.append(m.group(1))
+            m = _CAT_RE.match(first)
+            if m:
+                out.extend(heredocs[m.group(1)])
+    return out
+
+
 def check_cli_permutation(case) -> Verdict:
     files = case['files']
     root = case.get('root', ROOT)
@@ -692,6 +828,15 @@ def check_cli_permutation(case) -> Verdict:
             return fail('cli-permutation/%s-differs' % what,
                         {'what': what, 'original': a, 'permuted': b, 'files': files, 'permuted_files': files2},
                         labels=labels, nontrivial=nontrivial)
+    if a['ident'] == exp_ident == 'PASS':
+        # the execution is that of the reading: every phase runs exactly the instructions that the reference reader
+        # attributes to it, in reading order
+        want = expected_markers(r)
+        labels.append('marker-trace-compared')
+        if a['markers'] != want:
+            return fail('cli-permutation/marker-trace-differs-from-reading',
+                        {'expected_markers': want, 'observed_markers': a['markers'], 'files': files,
+                         'stderr': a['stderr']}, labels=labels, nontrivial=nontrivial)
     if a['ident'] != exp_ident:
         # the generator promises an executable document: anything else is a generator (harness) problem worth
         # seeing, but it is no statement about the property
@@ -738,7 +883,12 @@ SUBS = [
                   runs={'quick': 30000, 'thorough': 1200000}, shards={'quick': 4, 'thorough': 16}, max_len=48,
                   instrument=('exactly_lib.section_document', 'exactly_lib.processing.parse'),
                   seeds=[b'\x00\x00\x0f\x42\x4a\x03\x11\x18', b'\x02\x01\x1f\x43\x4a\x00\x0f\x44\x4a\x02\x3b',
-                         b'\x04\x00\x32\x33\x0f\x34\x0f\x01\x3d\x00']),
+                         b'\x04\x00\x32\x33\x0f\x34\x0f\x01\x3d\x00',
+                         # a chain of depth 3 with phase switches in the included files; a diamond and an indirect
+                         # cycle; a root in a sub-directory given by absolute path with an error at depth 2
+                         b'\x00\x00\x0f\x41\x0f\x4a\x0f\x42\x01\x11\x4a\x43\x30\x4a\x04\x0f\x02\x35',
+                         b'\x00\x00\x41\x44\x42\x0f\x4a\x0f\x4a\x43\x4a\x40',
+                         b'\x06\x01\x41\x0f\x4a\x1f\x42\x04\x4a\x0f\x08\x0f']),
     Sub('cli_locations', check_cli_location, strategy=gen.cli_location_strategy,
         budget={'quick': 2400, 'thorough': 50000}),
     Sub('cli_permutation', check_cli_permutation, strategy=gen.cli_permutation_strategy,
